@@ -6,12 +6,15 @@ import (
 	"encoding/json"
 	"fmt"
 	"os"
+	"os/exec"
 	"path/filepath"
 	"runtime"
 	"runtime/debug"
 	"sort"
+	"strconv"
 	"strings"
 	"sync"
+	"sync/atomic"
 	"time"
 
 	"verif/internal/gen"
@@ -255,6 +258,7 @@ func Run(p Property, opt Options) int {
 	written := 0
 	exit := 0
 	classHist := map[string]int{}
+	seenReplay := map[string]bool{}
 	dump := os.Getenv("VERIF_DUMP") != ""
 	for _, v := range unknown {
 		if dump {
@@ -268,12 +272,16 @@ func Run(p Property, opt Options) int {
 		if perClass[sig] >= 3 || written >= opt.MaxReplays {
 			continue
 		}
-		perClass[sig]++
 		path, err := WriteReplay(id, opt, v.o.desc, v.o.res)
 		if err != nil {
 			fmt.Printf("HARNESS-ERROR property=%s cannot write replay: %v\n", id, err)
 			continue
 		}
+		if seenReplay[path] { // the same single input reached through another case
+			continue
+		}
+		seenReplay[path] = true
+		perClass[sig]++
 		ev.replays = append(ev.replays, replayRef{sig, path})
 		written++
 		fmt.Printf("VIOLATION property=%s replay=%s class=%q %s\n", id, path, v.o.res.Class, oneLine(v.o.res.Msg))
@@ -312,18 +320,70 @@ func oneLine(s string) string {
 	return s
 }
 
+// CaseTimeouter lets a property with legitimately long batch cases raise the in-process
+// per-case watchdog (default 240 s, VERIF_CASE_TIMEOUT seconds).
+type CaseTimeouter interface{ CaseTimeout() time.Duration }
+
+// runInProcess executes the cases on a worker pool inside this process.  A case that is
+// still running after the per-case limit is re-executed alone in a fresh process with the
+// same limit: if that does not finish either the case is a violation of class "hang" (the
+// library call does not produce a result), its worker is abandoned and replaced; if it
+// does finish, the in-process run was merely slow (load) and is waited for.
 func runInProcess(p Property, cases []any, opt Options) []caseOut {
 	outs := make([]caseOut, len(cases))
-	var wg sync.WaitGroup
+	done := make([]int32, len(cases))
+	var nDone int64
+	var mu sync.Mutex
+	finish := func(i int, r Result) bool {
+		if !atomic.CompareAndSwapInt32(&done[i], 0, 1) {
+			return false
+		}
+		mu.Lock()
+		outs[i] = caseOut{idx: i, desc: cases[i], res: r}
+		mu.Unlock()
+		atomic.AddInt64(&nDone, 1)
+		return true
+	}
+	limit := 240 * time.Second
+	if ct, ok := p.(CaseTimeouter); ok {
+		limit = ct.CaseTimeout()
+	}
+	if v := os.Getenv("VERIF_CASE_TIMEOUT"); v != "" {
+		if n, err := strconv.Atoi(v); err == nil && n > 0 {
+			limit = time.Duration(n) * time.Second
+		}
+	}
+	type slot struct {
+		idx     int64 // case index, -1 when idle
+		start   int64 // unix nanoseconds
+		excused int32 // the case finished alone: slow, not hung
+		dead    int32 // abandoned
+	}
+	var slots []*slot
+	var smu sync.Mutex
 	next := make(chan int, 256)
-	for w := 0; w < opt.Workers; w++ {
-		wg.Add(1)
-		go func() {
-			defer wg.Done()
-			for i := range next {
-				outs[i] = caseOut{idx: i, desc: cases[i], res: SafeExec(p, cases[i])}
+	worker := func(sl *slot) {
+		for i := range next {
+			atomic.StoreInt32(&sl.excused, 0)
+			atomic.StoreInt64(&sl.start, time.Now().UnixNano())
+			atomic.StoreInt64(&sl.idx, int64(i))
+			r := SafeExec(p, cases[i])
+			atomic.StoreInt64(&sl.idx, -1)
+			finish(i, r)
+			if atomic.LoadInt32(&sl.dead) != 0 {
+				return
 			}
-		}()
+		}
+	}
+	spawn := func() {
+		sl := &slot{idx: -1}
+		smu.Lock()
+		slots = append(slots, sl)
+		smu.Unlock()
+		go worker(sl)
+	}
+	for w := 0; w < opt.Workers; w++ {
+		spawn()
 	}
 	// dispatch in a fixed pseudo-random order so that expensive cases that sit
 	// together in the list are spread over the run; results stay in index order
@@ -336,12 +396,79 @@ func runInProcess(p Property, cases []any, opt Options) []caseOut {
 		j := rng.Intn(i + 1)
 		order[i], order[j] = order[j], order[i]
 	}
-	for _, i := range order {
-		next <- i
+	go func() {
+		for _, i := range order {
+			next <- i
+		}
+		close(next)
+	}()
+	hung := 0
+	for atomic.LoadInt64(&nDone) < int64(len(cases)) {
+		time.Sleep(200 * time.Millisecond)
+		smu.Lock()
+		cur := append([]*slot(nil), slots...)
+		smu.Unlock()
+		for _, sl := range cur {
+			i := atomic.LoadInt64(&sl.idx)
+			if i < 0 || atomic.LoadInt32(&sl.dead) != 0 || atomic.LoadInt32(&sl.excused) != 0 {
+				continue
+			}
+			if time.Duration(time.Now().UnixNano()-atomic.LoadInt64(&sl.start)) < limit {
+				continue
+			}
+			fmt.Fprintf(os.Stderr, "[%s] case %d has been running for %v: re-executing it alone\n", p.ID(), i, limit)
+			finished := confirmAlone(p, opt, cases[i], limit)
+			if atomic.LoadInt64(&sl.idx) != i {
+				continue // it came back in the meantime
+			}
+			if finished {
+				atomic.StoreInt32(&sl.excused, 1)
+				continue
+			}
+			r := Result{V: Violated, Class: "hang", NonTrivial: true, Msg: fmt.Sprintf("the case produced no result within %v, neither in the worker pool nor alone in a fresh process (the library call does not return)", limit)}
+			if finish(int(i), r) {
+				hung++
+				atomic.StoreInt32(&sl.dead, 1)
+				spawn()
+			}
+			if hung >= 6 {
+				// give up on what is left: not executed, hence inconclusive
+				for k := range cases {
+					finish(k, Result{V: Inconclusive, Msg: "not executed: six cases of this run hung before it"})
+				}
+			}
+		}
 	}
-	close(next)
-	wg.Wait()
-	return outs
+	mu.Lock()
+	defer mu.Unlock()
+	return append([]caseOut(nil), outs...)
+}
+
+// confirmAlone runs one case through "vcheck replay" in a child process and reports
+// whether it produced any verdict within the limit.
+func confirmAlone(p Property, opt Options, desc any, limit time.Duration) bool {
+	if Self == "" {
+		return true // cannot confirm: never call it a hang
+	}
+	path, err := WriteReplay(p.ID(), opt, desc, Result{Class: "hang"})
+	if err != nil {
+		return true
+	}
+	cmd := exec.Command(Self, "replay", p.ID(), path)
+	cmd.Env = append(os.Environ(), "VERIF_CASE_TIMEOUT=86400")
+	if err := cmd.Start(); err != nil {
+		return true
+	}
+	ch := make(chan struct{})
+	go func() { _ = cmd.Wait(); close(ch) }()
+	select {
+	case <-ch:
+		return true
+	case <-time.After(limit):
+		_ = cmd.Process.Kill()
+		<-ch
+		return false
+	}
 }
 
 // ---- replays
